@@ -412,6 +412,7 @@ class Consumer : public ASTConsumer {
     f["ret"] = FD->getReturnType().getAsString();
     f["variadic"] = FD->isVariadic();
     if (FD->hasAttr<NoSplitStackAttr>()) f["no_split_stack"] = true;
+    if (FD->hasAttr<NoInlineAttr>()) f["noinline"] = true;
 
     FnDumper D(Ctx);
     json::Array params;
